@@ -5,6 +5,10 @@ use crate::interpreter::variant_casts::VariantCasts;
 pub fn run<S: InterpreterTrait>(interpreter: &mut S) -> Result<(), RuntimeError> {
     let old_file_name: &str = interpreter.context()[0].to_str_unchecked();
     let new_file_name: &str = interpreter.context()[1].to_str_unchecked();
+    #[cfg(feature = "verif")]
+    if let Some(result) = crate::interpreter::verif_fs::try_rename(old_file_name, new_file_name) {
+        return result.map_err(RuntimeError::from);
+    }
     std::fs::rename(old_file_name, new_file_name).map_err(RuntimeError::from)
 }
 
